@@ -56,14 +56,14 @@ Definition lookup (n : str) (vals : list (str * str)) : str :=
 Fixpoint fill (its : list item) (vals : list (str * str)) : str :=
   match its with
   | [] => []
-  | Lit l :: r => l ++ fill r vals
+  | Lit _ l :: r => l ++ fill r vals
   | Hole n _ _ :: r => lookup n vals ++ fill r vals
   end.
 
 Definition closes (c : cls) (r : list item) : Prop :=
   match r with
   | [] => True
-  | Lit (x :: _) :: _ => cls_mem c x = false
+  | Lit _ (x :: _) :: _ => cls_mem c x = false
   | _ => False
   end.
 
@@ -71,7 +71,7 @@ Definition closes (c : cls) (r : list item) : Prop :=
 Fixpoint good_for (its : list item) (vals : list (str * str)) : Prop :=
   match its with
   | [] => True
-  | Lit _ :: r => good_for r vals
+  | Lit _ _ :: r => good_for r vals
   | Hole n c mn :: r =>
     forallb (cls_mem c) (lookup n vals) = true /\ (mn <= length (lookup n vals))%nat /\
     closes c r /\ good_for r vals
@@ -84,7 +84,7 @@ Theorem match_fill its vals : good_for its vals ->
   match_items its (fill its vals) = Some (bindings its vals).
 Proof.
   induction its as [|it its IH]; intros H; [reflexivity|].
-  destruct it as [l|n c mn].
+  destruct it as [f l|n c mn].
   - cbn [match_items fill]. assert (S : strip_prefix l (l ++ fill its vals) = Some (fill its vals))
       by (apply strip_prefix_some; reflexivity).
     rewrite S. apply IH. exact H.
@@ -92,7 +92,7 @@ Proof.
     rewrite (hole_go_run n c mn (match_items its) (lookup n vals) [] (fill its vals) (bindings its vals)).
     + reflexivity.
     + exact Hv.
-    + unfold closes in Hc. destruct its as [|[[|x l]|] its']; try contradiction; simpl; auto.
+    + unfold closes in Hc. destruct its as [|[f [|x l]|] its']; try contradiction; simpl; auto.
     + apply IH. exact Hg.
     + simpl. exact Hl.
 Qed.
@@ -154,13 +154,21 @@ Qed.
 Definition plain_values (its : list item) (vals : list (str * str)) : Prop :=
   forall n, In n (hole_names its) -> exists v, assoc n vals = Some v /\ forallb plain_char v = true.
 
-Lemma format_fill its vals : plain_values its vals -> format_items its vals = Some (fill its vals).
+(* literal parts that need no quoting: formatter text = matched text, no '%' *)
+Fixpoint lits_no_pct (its : list item) : Prop :=
+  match its with
+  | [] => True
+  | Lit f l :: r => memN PCT f = false /\ l = f /\ lits_no_pct r
+  | Hole _ _ _ :: r => lits_no_pct r
+  end.
+
+Lemma format_fill its vals : lits_no_pct its -> plain_values its vals -> format_items its vals = Some (fill its vals).
 Proof.
-  induction its as [|it its IH]; intros H; [reflexivity|].
-  destruct it as [l|n c mn]; cbn [format_items fill].
-  - rewrite IH; [reflexivity|]. intros n Hn. apply H. exact Hn.
+  induction its as [|it its IH]; intros HL H; [reflexivity|].
+  destruct it as [f l|n c mn]; cbn [format_items fill].
+  - destruct HL as (_ & -> & HL). rewrite IH; [reflexivity|exact HL|]. intros n Hn. apply H. exact Hn.
   - destruct (H n (or_introl eq_refl)) as (v & Hv & Hp). unfold lookup. rewrite Hv, (quote_path_plain v Hp).
-    rewrite IH; [reflexivity|]. intros n' Hn. apply H. simpl. auto.
+    rewrite IH; [reflexivity|exact HL|]. intros n' Hn. apply H. simpl. auto.
 Qed.
 
 Lemma unquote_bindings its vals : plain_values its vals ->
@@ -171,18 +179,11 @@ Proof.
   apply plain_no_pct; assumption.
 Qed.
 
-Fixpoint lits_no_pct (its : list item) : Prop :=
-  match its with
-  | [] => True
-  | Lit l :: r => memN PCT l = false /\ lits_no_pct r
-  | Hole _ _ _ :: r => lits_no_pct r
-  end.
-
 Lemma fill_no_pct its vals : lits_no_pct its -> plain_values its vals -> memN PCT (fill its vals) = false.
 Proof.
   induction its as [|it its IH]; intros HL HP; [reflexivity|].
-  destruct it as [l|n c mn]; cbn [fill]; rewrite memN_app.
-  - destruct HL as [Hl HL]. rewrite Hl, IH; auto.
+  destruct it as [f l|n c mn]; cbn [fill]; rewrite memN_app.
+  - destruct HL as (Hl & -> & HL). rewrite Hl, IH; auto.
   - destruct (HP n (or_introl eq_refl)) as (v & Hv & Hp). unfold lookup. rewrite Hv, (plain_no_pct v Hp).
     apply IH; [exact HL|]. intros n' Hn. apply HP. simpl. auto.
 Qed.
@@ -233,7 +234,7 @@ Theorem match_values_in_class its : forall p d, match_items its p = Some d ->
 Proof.
   induction its as [|it its IH]; intros p d H.
   - simpl in H. destruct (is_nil p); inversion H. constructor.
-  - destruct it as [l|n c mn].
+  - destruct it as [f l|n c mn].
     + cbn [match_items] in H. destruct (strip_prefix l p) as [r|]; [|discriminate].
       specialize (IH r d H). eapply Forall_impl; [|exact IH].
       intros nv (c & mn & Hin & Hv). exists c, mn. split; [right; exact Hin|exact Hv].
